@@ -48,13 +48,30 @@ func ConstSlices(P *load.Program) map[*ssa.Global][]string {
 					continue
 				}
 				stores[g]++
-				sl, ok := st.Val.(*ssa.Slice)
-				if !ok || sl.Low != nil || sl.High != nil || sl.Max != nil {
-					continue
-				}
-				al, ok := sl.X.(*ssa.Alloc)
-				if !ok {
-					continue
+				var al *ssa.Alloc
+				var sl *ssa.Slice
+				if ld, isLoad := st.Val.(*ssa.UnOp); isLoad {
+					// an array: var xs = [...]string{…} — the literal is built in a local and copied in
+					a2, isA := ld.X.(*ssa.Alloc)
+					if !isA {
+						continue
+					}
+					if at, isArr := a2.Type().Underlying().(*types.Pointer).Elem().Underlying().(*types.Array); !isArr {
+						continue
+					} else if bt, isB := at.Elem().Underlying().(*types.Basic); !isB || bt.Info()&types.IsString == 0 {
+						continue
+					}
+					al = a2
+				} else {
+					s2, ok := st.Val.(*ssa.Slice)
+					if !ok || s2.Low != nil || s2.High != nil || s2.Max != nil {
+						continue
+					}
+					a2, ok := s2.X.(*ssa.Alloc)
+					if !ok {
+						continue
+					}
+					al, sl = a2, s2
 				}
 				type kv struct {
 					i int64
@@ -87,6 +104,10 @@ func ConstSlices(P *load.Program) map[*ssa.Global][]string {
 						if x != sl {
 							good = false
 						}
+					case *ssa.UnOp:
+						if sl != nil {
+							good = false // only the array form loads the literal as a whole
+						}
 					case *ssa.DebugRef:
 					default:
 						good = false
@@ -112,6 +133,76 @@ func ConstSlices(P *load.Program) map[*ssa.Global][]string {
 	for g, n := range stores {
 		if n != 1 {
 			delete(out, g)
+		}
+	}
+	// arrays initialised in place: var xs = [...]string{…} becomes stores through &xs[i] in the package initialiser
+	for path, sp := range P.SSA {
+		if !strings.HasPrefix(path, load.ModPath) {
+			continue
+		}
+		init := sp.Func("init")
+		if init == nil {
+			continue
+		}
+		type cell struct {
+			s  string
+			ok bool
+		}
+		arr := map[*ssa.Global]map[int64]cell{}
+		bad := map[*ssa.Global]bool{}
+		for _, b := range init.Blocks {
+			for _, in := range b.Instrs {
+				ia, ok := in.(*ssa.IndexAddr)
+				if !ok {
+					continue
+				}
+				g, ok := ia.X.(*ssa.Global)
+				if !ok {
+					continue
+				}
+				at, isArr := g.Type().Underlying().(*types.Pointer).Elem().Underlying().(*types.Array)
+				if !isArr {
+					continue
+				}
+				if bt, isB := at.Elem().Underlying().(*types.Basic); !isB || bt.Info()&types.IsString == 0 {
+					continue
+				}
+				idx, isC := ia.Index.(*ssa.Const)
+				if !isC || stores[g] > 0 {
+					bad[g] = true
+					continue
+				}
+				if arr[g] == nil {
+					arr[g] = map[int64]cell{}
+				}
+				for _, r := range *ia.Referrers() {
+					st, ok := r.(*ssa.Store)
+					if !ok || st.Addr != ssa.Value(ia) {
+						bad[g] = true
+						continue
+					}
+					c, ok := st.Val.(*ssa.Const)
+					if !ok || c.Value == nil || c.Value.Kind() != constant.String {
+						bad[g] = true
+						continue
+					}
+					if arr[g][idx.Int64()].ok {
+						bad[g] = true
+					}
+					arr[g][idx.Int64()] = cell{constant.StringVal(c.Value), true}
+				}
+			}
+		}
+		for g, cells := range arr {
+			if bad[g] {
+				continue
+			}
+			n := g.Type().Underlying().(*types.Pointer).Elem().Underlying().(*types.Array).Len()
+			lst := make([]string, n)
+			for i := int64(0); i < n; i++ {
+				lst[i] = cells[i].s // an element the literal leaves out is ""
+			}
+			out[g] = lst
 		}
 	}
 	isInit := func(fn *ssa.Function) bool {
@@ -149,6 +240,9 @@ func ConstSlices(P *load.Program) map[*ssa.Global][]string {
 				g, isG := u.X.(*ssa.Global)
 				if !isG || out[g] == nil || u.Referrers() == nil {
 					continue
+				}
+				if _, isArr := u.Type().Underlying().(*types.Array); isArr {
+					continue // the loaded array is a copy: whatever is done with it cannot change the variable
 				}
 				for _, r := range *u.Referrers() {
 					switch x := r.(type) {
